@@ -361,13 +361,14 @@ func (m nsIQMatcher) Match(p stanza.Packet, match *RouteMatch) bool {
 	if !ok {
 		return false
 	}
+	// The namespaces of the route are kept in lower case (see IQNamespaces): so is the one looked up.
 	if iq.Payload != nil {
-		return matchInArray(m, iq.Payload.Namespace())
+		return matchInArray(m, strings.ToLower(iq.Payload.Namespace()))
 	}
 	// A payload the library has no type for (ping, vcard-temp, ...) is kept as a generic node:
 	// its namespace is the namespace of the IQ payload all the same.
 	if iq.Any != nil {
-		return matchInArray(m, iq.Any.XMLName.Space)
+		return matchInArray(m, strings.ToLower(iq.Any.XMLName.Space))
 	}
 	return false
 }
